@@ -29,6 +29,7 @@ type gschema struct {
 	Table string
 	Cols  []*gcol
 	PK    []int
+	Uniq  [][]int // secondary unique indexes uk0, uk1, ... (column indices)
 }
 
 type intType struct {
@@ -140,6 +141,26 @@ func genSchema(r *hutil.Rng, idx int) *gschema {
 		s.Cols[0], s.Cols[1] = s.Cols[1], s.Cols[0]
 		s.PK = []int{1}
 	}
+	// one or two secondary unique indexes in most tables (not on TEXT columns)
+	var cand []int
+	for i, c := range s.Cols {
+		if !c.PK && c.StrKind != "SText" {
+			cand = append(cand, i)
+		}
+	}
+	if len(cand) > 0 && r.Chance(2, 3) {
+		n := 1 + r.Intn(2)
+		for k := 0; k < n; k++ {
+			ix := []int{cand[r.Intn(len(cand))]}
+			if len(cand) > 1 && r.Chance(1, 3) {
+				o := cand[r.Intn(len(cand))]
+				if o != ix[0] {
+					ix = append(ix, o)
+				}
+			}
+			s.Uniq = append(s.Uniq, ix)
+		}
+	}
 	return s
 }
 
@@ -175,6 +196,13 @@ func (s *gschema) ddl() string {
 		pk[i] = s.Cols[ci].Name
 	}
 	parts = append(parts, "PRIMARY KEY ("+strings.Join(pk, ", ")+")")
+	for i, ix := range s.Uniq {
+		names := make([]string, len(ix))
+		for j, ci := range ix {
+			names[j] = s.Cols[ci].Name
+		}
+		parts = append(parts, fmt.Sprintf("UNIQUE KEY uk%d (%s)", i, strings.Join(names, ", ")))
+	}
 	return "CREATE TABLE " + s.Table + " (" + strings.Join(parts, ", ") + ")"
 }
 
@@ -205,7 +233,15 @@ func (s *gschema) coq() string {
 	for i, ci := range s.PK {
 		pk[i] = fmt.Sprintf("%d%%nat", ci)
 	}
-	return fmt.Sprintf("{| s_cols := %s; s_pk := %s |}", coqList(cols), coqList(pk))
+	uq := make([]string, len(s.Uniq))
+	for i, ix := range s.Uniq {
+		cs := make([]string, len(ix))
+		for j, ci := range ix {
+			cs[j] = fmt.Sprintf("%d%%nat", ci)
+		}
+		uq[i] = coqList(cs)
+	}
+	return fmt.Sprintf("{| s_cols := %s; s_pk := %s; s_uniq := %s |}", coqList(cols), coqList(pk), coqList(uq))
 }
 
 // ---------------------------------------------------------------- statements
@@ -596,8 +632,24 @@ func (g *gen) keyValue(ci int, fresh bool) string {
 	return g.emitStr([]string{"k", "a", "b", "ab", "q", "zz", "m", "k1", "k2", "1", "2"}[g.r.Intn(11)] + []string{"", "", "x", "7"}[g.r.Intn(4)])
 }
 
+func (g *gen) inUnique(ci int) bool {
+	for _, ix := range g.s.Uniq {
+		for _, c := range ix {
+			if c == ci {
+				return true
+			}
+		}
+	}
+	return false
+}
+
 func (g *gen) storeValue(ci int) string {
 	c := g.s.Cols[ci]
+	if g.inUnique(ci) && g.r.Chance(1, 3) {
+		if a, ok := g.existing(ci); ok && a.T != "null" {
+			return g.emitArg(a)
+		}
+	}
 	switch k := g.r.Intn(12); {
 	case k < 2 && !c.NotNull:
 		return g.emitNull()
@@ -611,6 +663,11 @@ func (g *gen) insertStmt() string {
 	r := g.r
 	s := g.s
 	listed := r.Chance(3, 4)
+	// now and then a row that is in the way twice: primary key of one row, unique values of another
+	double := len(s.Uniq) > 0 && len(g.rows) > 1 && r.Chance(1, 5)
+	if double {
+		listed = false
+	}
 	var cols []int
 	if listed {
 		for i, c := range s.Cols {
@@ -644,6 +701,9 @@ func (g *gen) insertStmt() string {
 		nrows = 2 + r.Intn(2)
 	}
 	fresh := r.Chance(3, 4)
+	if double {
+		fresh = false
+	}
 	rows := make([]string, nrows)
 	for i := range rows {
 		vs := make([]string, len(cols))
@@ -663,6 +723,12 @@ func (g *gen) insertStmt() string {
 				}
 			case c.PK:
 				vs[j] = g.keyValue(ci, fresh)
+			case double && g.inUnique(ci):
+				if a, ok := g.existing(ci); ok && a.T != "null" {
+					vs[j] = g.emitArg(a)
+				} else {
+					vs[j] = g.storeValue(ci)
+				}
 			default:
 				vs[j] = g.storeValue(ci)
 			}
@@ -671,7 +737,11 @@ func (g *gen) insertStmt() string {
 	}
 	verb := "INSERT"
 	ondup := ""
-	switch k := r.Intn(20); {
+	k := r.Intn(20)
+	if double {
+		k = []int{0, 7, 7, 8, 10}[r.Intn(5)] // upsert, REPLACE, plain
+	}
+	switch {
 	case k < 5:
 		var sets []string
 		n := 1 + r.Intn(2)
